@@ -15,7 +15,9 @@ CLAIMED = {
    text='Deductive proof, for all inputs/histories: the representation invariant InvP (every stored row is in the unit cube, '
         'in the bound of its shell and in no later bound; transfer candidates consistent) is established by add_bound and preserved by '
         'sample_shell, add_samples, add_bound, the discard setter and every branch of the run() loop including empty-shell removal; '
-        'every obligation generated from the real AST of /repo/nautilus/sampler.py is discharged by z3 (ground-instantiation fallback).',
+        'every obligation generated from the real AST of /repo/nautilus/sampler.py is discharged by z3 (ground-instantiation fallback). Support units (shared with C07) show that the concrete bound '
+        'classes implement the abstract Bound API these proofs are written against: sample() returns rows that contains() accepts and that lie in the unit cube (serial, pool, periodic), '
+        'restructuring leaves no stale proposal, compute() establishes the class invariants, and a pool worker returns only its own draws.',
    note=TRUST + 'Assumed contracts: abstract Bound API (sample returns points inside the bound and cube; contains is a pure function of geometry; '
         'C07), evaluate_likelihood (C03), write*/accessors read-only (C11), resume restores fields (C05). Bounded stand-in (thorough): runtime monitor on 8 scenarios.',
    tech='contract-based deductive verification: AST symbolic execution + loop invariants + z3/cvc5 (self-built VC generator)', ref='7 C01'),
@@ -24,7 +26,7 @@ CLAIMED = {
         'bound volume x accepted fraction, mean likelihood, Kish size; -inf/nan conventions for empty shells) and touches no other entry; a ghost up-to-date bit per bound - cleared by '
         'every write to an input of those formulas (the shell\'s log_l, its proposal counter, the bound\'s sampling state, the view parameters) or to the statistic arrays, set only by '
         'update_shell_info - is invariantly true for every sampled shell after add_bound, add_samples, the discard setter and every branch of run(); never more samples than proposals in '
-        'either view; log_z is the logsumexp over non-empty shells of (mean likelihood + volume); posterior() weights are shell volume / max(n,1) x likelihood; n_eff is 0 without informative shells and otherwise (sum W)^2 / sum (W^2 / n_eff_shell) over shells with '
+        'either view; the proposal count returned by sample_shell is exactly the number of rows drawn from the bound (ghost counter in the Bound API, also for draws rejected completely); log_z is the logsumexp over non-empty shells of (mean likelihood + volume); posterior() weights are shell volume / max(n,1) x likelihood; n_eff is 0 without informative shells and otherwise (sum W)^2 / sum (W^2 / n_eff_shell) over shells with '
         'n_eff_shell > 0, W = exp(mean likelihood + volume - max); eta is exp(2 lse(z) - 2 lse(z - log(n_eff_shell/n)/2)) over shells with samples.',
    note=TRUST + 'Splitting the sample-level Kish sums over shells (which turns the shell-level n_eff / eta formulas into the sample-level statement) is a mathematical lemma, not machine-checked; -inf/nan are '
         'distinguished constants with uninterpreted log/exp/logsumexp (term equalities). Soundness of the up-to-date bit rests on the mechanical store hooks of the executor.',
@@ -36,7 +38,8 @@ CLAIMED = {
         'point of the same row, also for transfer candidates) is preserved by add_bound, add_samples and every branch of run(); (3) posterior(): the weighted arrays built from the shells '
         'are row-aligned triples and the final transform/normalisation keeps rows together.',
    note=TRUST + 'User functions are uninterpreted (T, L, Bl), row-wise when vectorised; the prior may clobber the array object it is given; pool.map ordered (C11). "Every evaluated point at '
-        'most once" has no proof: bounded runtime check (duplicate rows) only. posterior() is verified as two mechanically extracted blocks.',
+        'most once" is proved only for the pool worker (a worker resets its copy before sampling and returns only its own draws: support unit shared with C07); that proposals of the '
+        'continuous generator are distinct is an assumption, duplicates are also looked for by the bounded runtime check. posterior() is verified as two mechanically extracted blocks.',
    tech='contract-based deductive verification incl. user-function theory and representation invariant, z3', ref='7 C03'),
  'C05': dict(
    text='Deductive proof in four machine-checked pieces: (1) Sampler.write executed on an arbitrary sampler yields an explicit HDF5 tree holding every run-state field, all shells, '
@@ -57,7 +60,8 @@ CLAIMED = {
    text='Deductive proof over a ghost file system on the real bodies of Sampler.write and Sampler.write_shell_update (the only two functions that open a file for writing; resume opens '
         'only the checkpoint path read-only - syntactic obligations): after EVERY file-system event (open for writing, copy start/end, close, rename, unlink) - and hence at every '
         'instant, because a non-atomic primitive turns its target into the torn state as its first effect - the checkpoint path holds either the complete state it held at entry or the '
-        'complete new state, and is never absent once it existed; on normal exit the new state is committed and no file is left open.',
+        'complete new state, and is never absent once it existed; on normal exit the new state is committed and no file is left open. Package-wide syntactic obligation: no function other than '
+        'the two writers renames, removes, copies, creates or opens a file for writing (so resuming never "repairs" the checkpoint from a leftover temporary file).',
    note=TRUST + 'Assumed contracts of the file system: os.replace (POSIX rename) and unlink are atomic, h5py touches only the file it opened, close() completes the file; process kill, not '
         'power loss (no fsync reasoning). Bounded leg: a child process is killed before every k-th source line of both writers after a first checkpoint exists; the checkpoint must exist, '
         'load, be internally consistent and continue.',
@@ -72,7 +76,8 @@ CLAIMED = {
         'the conjunction of the two parts and every sample is contained; Union.split / Union.trim (contracts shared with C13) end with an empty proposal cache and a partition of the '
         'construction points, so no stale proposal survives a restructuring; Union.compute and NautilusBound.compute establish the class invariants the sampling proofs assume: the outer union '
         'is built restricted to the unit cube (the default of Union.compute is read from the source), at least one neural bound (one per ellipsoid), a periodic shift exactly when periodic '
-        'parameters are declared, an empty cache with zero counters, and every component holds the one generator handed in.',
+        'parameters are declared, an empty cache with zero counters, and every component holds the one generator handed in; NautilusBound.reset empties the cache and zeroes the counters of both '
+        'levels, and _reset_and_sample (what a pool worker runs on its pickled copy) resets before it samples.',
    note=TRUST + 'Linear-algebra laws (inverse, Cholesky, quadratic-form scaling, sqrt) and the laws of complementary column sets are axioms; a Gaussian vector is non-zero; pickled worker copies '
         'keep the geometry; emulator row-wise. UnitCubeEllipsoidMixture.compute (dimension-selection loops) and "construction points stay contained after any sequence of splits" on real '
         'objects have no proof here: bounded runtime check (check_c07.py).',
@@ -110,7 +115,9 @@ CLAIMED = {
         'evaluate_likelihood lies in the unit cube (call precondition discharged at the call site), the counter grows by exactly n_batch per loop iteration and each '
         'iteration starts only with n_like < n_like_max (loop step obligations), hence the total stays below n_like_max + n_batch and is unchanged when the limit was '
         'already reached; run() returns exactly the success predicate of its exit state; the fall-through branch without a batch is shown unreachable. Support (units shared with C07): '
-        'UnitCube.sample and NautilusBound.sample (serial and pool, periodic or not) return rows inside the unit cube, and NautilusBound.compute builds the outer union restricted to it.',
+        'UnitCube.sample and NautilusBound.sample (serial and pool, periodic or not) return rows inside the unit cube, NautilusBound.compute builds the outer union restricted to it, and '
+        'evaluate_likelihood (unit shared with C03) adds exactly the number of rows of the batch to n_like in every evaluation mode - the value a vectorised prior returns (array or dictionary) '
+        'is opaque to the code, in particular its len().',
    note=TRUST + 'Assumed contracts: evaluate_likelihood increments n_like by the number of points (body: C03); the Sampler proofs use the abstract Bound API, which the support units show the two '
         'concrete classes to implement. The counter across a resume is the persisted n_like (C05). '
         'time() is a fresh real per call. n_eff is modelled as a deterministic function of the three arrays it reads.',
@@ -123,7 +130,8 @@ CLAIMED = {
         'constructor receives the shared generator, `if verbose:` blocks only print; evaluate_likelihood (scalar, vectorised, pooled - every combination is one path of the same body) returns '
         'the user likelihood / blob of every row of the batch and leaves the caller\'s batch untouched whatever the user transform does to the array it is handed, so the mode is invisible; '
         'in the Sampler class the generator is referenced only by __init__, posterior, sample_shell, add_bound and (read-only) the two writers, and the likelihood pool only in __init__ and '
-        'evaluate_likelihood while every `pool=` argument is the sampler pool - so neither an accessor nor the size of the likelihood pool can change the random stream.',
+        'evaluate_likelihood while every `pool=` argument is the sampler pool - so neither an accessor nor the size of the likelihood pool can change the random stream; NautilusPool(n, likelihood) creates one new worker pool initialised with exactly that '
+        'likelihood, a given pool object is used as it is, and nautilus/pool.py keeps no module-level state.',
    note=TRUST + 'h5py / pathlib objects are effect-free sinks (they hold no reference to the sampler); Pool.map / dask gather(map) ordered and BLAS/sklearn deterministic are assumed contracts '
         'of dependencies; print_status and shell_bound_occupation are outside the subset: bounded runtime interleaving check only. The composition to "bit-identical runs" is the '
         'determinism argument of DESIGN.md (not machine-checked).',
